@@ -28,7 +28,7 @@ FRACTIONS = [1.0, 0.0, 0.1, 0.25, 1.0 / 3, 0.5, 0.9, 1.0, None, 1.0]
 
 def cases(tier, seed):
     rng = np.random.default_rng([4, seed])
-    n = 600 if tier == "quick" else 20000
+    n = 600 if tier == "quick" else 60000
     out = []
     for j in range(n):
         cell_cls = planted.CELL_CLASSES[j % len(planted.CELL_CLASSES)]
@@ -209,7 +209,7 @@ def _cnt(d, rep_ids):
 
 def requirements(stats, tier):
     need = []
-    if stats.get("replacements_judged") < (400 if tier == "quick" else 14000):
+    if stats.get("replacements_judged") < (400 if tier == "quick" else 40000):
         need.append("too few replacements judged: %d" % stats.get("replacements_judged"))
     if stats.nseen("repl_kind") < len(replcase.REPL_KINDS) - 1:
         need.append("replacement kinds observed: %s" % sorted(stats.sets.get("repl_kind", [])))
